@@ -54,11 +54,6 @@ theorem stems_wellformed_psl (lines : List Str) (sa : Bool) (p : Parts) (hb : no
     StemsOK (lruStems (pslSplit lines) sa p) :=
   stems_ok_psl lines sa p hb
 
-/-- **the exact host condition of the suffix-aware round trip**: a bracketed literal (never
-suffix-processed), or a host that neither starts nor ends with a dot -/
-def pslHostOK (h : Str) : Bool :=
-  h.head? == some '[' || (h.head? != some '.' && h.getLast? != some '.')
-
 /-- C08's re-join clause for suffix_trie.py on every netloc of the grammar whose host is
 `pslHostOK` -/
 theorem splitLaw_psl_class (lines : List Str) (n : Str) (hwf : wfNetloc n = true)
